@@ -1,12 +1,12 @@
 package main
 
 import (
-	"reflect"
 	"bytes"
 	"encoding/json"
 	"errors"
 	"fmt"
 	"math"
+	"reflect"
 	"strconv"
 	"strings"
 	"time"
